@@ -71,15 +71,20 @@ func (f *failer) done() {
 
 type meshSvc struct {
 	host, ns, addr string
-	ext            string // Kubernetes ExternalName: the service is an alias of this host
+	ext            string   // Kubernetes ExternalName: the service is an alias (Resolution: Alias) of this host
+	aliases        []string // Attributes.Aliases: alias services pointing to this one
 	ports          []int
 }
 
 type meshState struct {
 	svcs        []meshSvc
-	sidecarNs   string   // namespace of the (single) Sidecar resource, "" = none
-	egress      []string // its egress hosts, `ns/dnsName`
-	vss         []config.Config
+	sidecarNs   string          // namespace of the (single) Sidecar resource, "" = none
+	egress      []string        // hosts of its catch-all egress listener, `ns/dnsName`
+	policy      string          // its outboundTrafficPolicy: "allow", "registry", "egress=<cluster>"
+	egressPort  int             // a port-specific egress listener (0 = none) ...
+	egressPortH []string        // ... and its hosts
+	vss         []config.Config // as the spec reads them (short names resolved)
+	rawVss      []config.Config // as written: the input of the real code
 	rc          *route.RouteConfiguration
 	proxyDomain string
 	// real generator environment of the case (built at the first `rds`, dropped when the mesh changes)
@@ -104,6 +109,12 @@ func (m *meshSvc) real() *model.Service {
 		s.Ports = append(s.Ports, &model.Port{Name: "http-" + strconv.Itoa(p), Port: p, Protocol: protocol.HTTP})
 	}
 	s.Attributes.K8sAttributes.ExternalName = m.ext
+	if m.ext != "" {
+		s.Resolution = model.Alias // as the Kubernetes registry marks ExternalName services
+	}
+	for _, a := range m.aliases {
+		s.Attributes.Aliases = append(s.Attributes.Aliases, model.NamespacedHostname{Hostname: host.Name(a), Namespace: m.ns})
+	}
 	return s
 }
 
@@ -115,6 +126,9 @@ func (s *state) rdsStep(f []string) (string, bool) {
 		if len(f) > 5 {
 			ms.ext = wire.Dec(f[5])
 		}
+		if len(f) > 6 {
+			ms.aliases = wire.DecList(f[6])
+		}
 		for _, p := range wire.DecList(f[3]) {
 			ms.ports = append(ms.ports, atoi(p))
 		}
@@ -123,8 +137,15 @@ func (s *state) rdsStep(f []string) (string, bool) {
 		// the SPEC resolves destinations against the full registry (all ports of every service)
 		s.services[host.Name(ms.host)] = ms.real()
 		return "ok", true
-	case "sidecar": // sidecar <ns> <egress hosts>
+	case "sidecar": // sidecar <ns> <catch-all egress hosts> [<policy> [<port> <hosts of the port-specific listener>]]
 		m.sidecarNs, m.egress = wire.Dec(f[1]), wire.DecList(f[2])
+		m.policy, m.egressPort, m.egressPortH = "allow", 0, nil
+		if len(f) > 3 {
+			m.policy = f[3]
+		}
+		if len(f) > 5 {
+			m.egressPort, m.egressPortH = atoi(f[4]), wire.DecList(f[5])
+		}
 		m.drop()
 		return "ok", true
 	case "mvs":
@@ -139,7 +160,22 @@ func (s *state) rdsStep(f []string) (string, bool) {
 		}
 		c := s.cfg.DeepCopy()
 		c.CreationTimestamp = time.Unix(int64(1000+len(m.vss)), 0)
-		m.vss = append(m.vss, c)
+		c.Domain = "cluster.local"
+		m.rawVss = append(m.rawVss, c) // what the real code is given
+		// what the spec reads: short names mean <name>.<namespace of the VirtualService>.svc.<cluster domain>
+		sc := c.DeepCopy()
+		vs := sc.Spec.(*networking.VirtualService)
+		for i, h := range vs.Hosts {
+			vs.Hosts[i] = specShortname(h, sc.Namespace)
+		}
+		for _, r := range vs.Http {
+			for _, d := range r.Route {
+				if d.Destination != nil {
+					d.Destination.Host = specShortname(d.Destination.Host, sc.Namespace)
+				}
+			}
+		}
+		m.vss = append(m.vss, sc)
 		m.drop()
 		return "ok", true
 	case "rds":
@@ -153,11 +189,27 @@ func (s *state) rdsStep(f []string) (string, bool) {
 			for i := range m.svcs {
 				svcs = append(svcs, m.svcs[i].real())
 			}
-			cfgs := append([]config.Config(nil), m.vss...)
+			cfgs := append([]config.Config(nil), m.rawVss...)
 			if m.sidecarNs != "" {
+				sc := &networking.Sidecar{}
+				if m.egressPort != 0 {
+					sc.Egress = append(sc.Egress, &networking.IstioEgressListener{
+						Port:  &networking.SidecarPort{Number: uint32(m.egressPort), Protocol: "HTTP", Name: "http-p"},
+						Hosts: m.egressPortH,
+					})
+				}
+				sc.Egress = append(sc.Egress, &networking.IstioEgressListener{Hosts: m.egress})
+				switch {
+				case m.policy == "registry":
+					sc.OutboundTrafficPolicy = &networking.OutboundTrafficPolicy{Mode: networking.OutboundTrafficPolicy_REGISTRY_ONLY}
+				case strings.HasPrefix(m.policy, "egress="):
+					h, p, _ := strings.Cut(wire.Dec(m.policy[7:]), "|")
+					sc.OutboundTrafficPolicy = &networking.OutboundTrafficPolicy{Mode: networking.OutboundTrafficPolicy_ALLOW_ANY,
+						EgressProxy: &networking.Destination{Host: h, Port: &networking.PortSelector{Number: uint32(atoi(p))}}}
+				}
 				cfgs = append(cfgs, config.Config{
 					Meta: config.Meta{GroupVersionKind: gvk.Sidecar, Name: "sc", Namespace: m.sidecarNs, CreationTimestamp: time.Unix(800, 0)},
-					Spec: &networking.Sidecar{Egress: []*networking.IstioEgressListener{{Hosts: m.egress}}},
+					Spec: sc,
 				})
 			}
 			m.cg = core.NewConfigGenTest(m.fl, core.TestOptions{Services: svcs, Configs: cfgs})
@@ -199,6 +251,13 @@ func (s *state) rdsStep(f []string) (string, bool) {
 
 // --- Sidecar scope (spec): what the Sidecar resource lets a proxy of its namespace see
 
+func specShortname(h, ns string) string {
+	if h == "*" || h == "" || strings.ContainsAny(h, ".:") {
+		return h
+	}
+	return h + "." + ns + ".svc.cluster.local"
+}
+
 func egressSelectsNs(e, own, ns string) (string, bool) {
 	ens, h, found := strings.Cut(e, "/")
 	if !found {
@@ -214,11 +273,42 @@ func (s *state) scoped() bool {
 	return s.mesh.sidecarNs != "" && s.node != nil && s.node.Metadata.Namespace == s.mesh.sidecarNs
 }
 
+// egressHosts: the egress listener declared for the listener port if there is one, else the catch-all listener.
+func (s *state) egressHosts() []string {
+	if s.mesh.egressPort != 0 && s.mesh.egressPort == s.port {
+		return s.mesh.egressPortH
+	}
+	return s.mesh.egress
+}
+
+// excluded: a `~namespace/dnsName` entry naming the namespace (or any: `~*/`, `~/`) covers the hostname
+func (s *state) excluded(ns, name string) bool {
+	for _, e := range s.egressHosts() {
+		if !strings.HasPrefix(e, "~") {
+			continue
+		}
+		e = e[1:]
+		if strings.HasPrefix(e, "/") {
+			e = "*" + e
+		}
+		if h, ok := egressSelectsNs(e, s.mesh.sidecarNs, ns); ok && (h == name || subsetOf(name, h)) {
+			return true
+		}
+	}
+	return false
+}
+
 func (s *state) svcVisible(ms meshSvc) bool {
 	if !s.scoped() {
 		return true
 	}
-	for _, e := range s.mesh.egress {
+	if s.excluded(ms.ns, ms.host) {
+		return false
+	}
+	for _, e := range s.egressHosts() {
+		if strings.HasPrefix(e, "~") {
+			continue
+		}
 		if h, ok := egressSelectsNs(e, s.mesh.sidecarNs, ms.ns); ok {
 			if h == ms.host || (strings.HasPrefix(h, "*") && subsetOf(ms.host, h)) {
 				return true
@@ -232,9 +322,15 @@ func (s *state) vsVisible(c *config.Config) bool {
 	if !s.scoped() {
 		return true
 	}
-	for _, e := range s.mesh.egress {
+	for _, e := range s.egressHosts() {
+		if strings.HasPrefix(e, "~") {
+			continue
+		}
 		if h, ok := egressSelectsNs(e, s.mesh.sidecarNs, c.Namespace); ok {
 			for _, vh := range c.Spec.(*networking.VirtualService).Hosts {
+				if s.excluded(c.Namespace, vh) {
+					continue // an excluded host does not import the VirtualService; another host still may
+				}
 				if h == vh || ((strings.HasPrefix(h, "*") || strings.HasPrefix(vh, "*")) && (subsetOf(vh, h) || subsetOf(h, vh))) {
 					return true
 				}
@@ -247,16 +343,88 @@ func (s *state) vsVisible(c *config.Config) bool {
 // svcNames: the names by which a service can be addressed from the proxy's namespace - FQDN, absolute
 // FQDN, cluster VIP and, for <name>.<ns>.svc.<suffix> seen from <pns>.svc.<suffix>, the Kubernetes DNS
 // search path abbreviations <name>.<ns>, <name>.<ns>.svc and (same namespace only) <name>.
-func svcNames(ms meshSvc, proxyDomain string) []string {
-	out := []string{ms.host, ms.host + "."}
-	if ms.addr != "" && ms.addr != "0.0.0.0" {
-		out = append(out, ms.addr)
+// visibleAliases: an alias hostname stands for the service on this proxy only if the ExternalName service itself is
+// in the proxy's scope.
+func (s *state) visibleAliases(ms meshSvc) []string {
+	if s.aliasVariant {
+		return s.aliasesByConcreteEntry(ms)
 	}
-	h, p := strings.Split(ms.host, "."), strings.Split(proxyDomain, ".")
-	if len(h) >= 4 && len(p) >= 3 && h[2] == "svc" && p[1] == "svc" && strings.Join(h[3:], ".") == strings.Join(p[2:], ".") {
-		out = append(out, h[0]+"."+h[1], h[0]+"."+h[1]+".svc")
-		if h[1] == p[0] {
-			out = append(out, h[0])
+	var out []string
+	for _, a := range ms.aliases {
+		for _, x := range s.mesh.svcs {
+			if x.host == a && s.svcVisible(x) {
+				out = append(out, a)
+				break
+			}
+		}
+	}
+	return out
+}
+
+// aliasesByConcreteEntry (classification only, F-C12-9): an alias counts as imported iff the egress entries that
+// imported the CONCRETE service - those naming its namespace if one of them matches it, else the `*/` ones - also
+// match the alias hostname; whether the Sidecar imports the ExternalName service itself plays no role.
+func (s *state) aliasesByConcreteEntry(ms meshSvc) []string {
+	if !s.scoped() {
+		return ms.aliases
+	}
+	var nsE, wE []string
+	for _, e := range s.egressHosts() {
+		if strings.HasPrefix(e, "~") {
+			continue
+		}
+		ens, h, found := strings.Cut(e, "/")
+		if !found {
+			ens, h = "*", e
+		}
+		if ens == "." {
+			ens = s.mesh.sidecarNs
+		}
+		switch {
+		case ens == "*":
+			wE = append(wE, h)
+		case ens == ms.ns:
+			nsE = append(nsE, h)
+		}
+	}
+	hit := func(l []string, name string) bool {
+		for _, h := range l {
+			if h == name || (strings.HasPrefix(h, "*") && subsetOf(name, h)) {
+				return true
+			}
+		}
+		return false
+	}
+	use := wE
+	if hit(nsE, ms.host) {
+		use = nsE
+	}
+	var out []string
+	for _, a := range ms.aliases {
+		if hit(use, a) {
+			out = append(out, a)
+		}
+	}
+	return out
+}
+
+func svcNames(ms meshSvc, proxyDomain string) []string {
+	var out []string
+	for _, hn := range append([]string{ms.host}, ms.aliases...) {
+		out = append(out, hn, hn+".")
+		h, p := strings.Split(hn, "."), strings.Split(proxyDomain, ".")
+		if len(h) >= 4 && len(p) >= 3 && h[2] == "svc" && p[1] == "svc" && strings.Join(h[3:], ".") == strings.Join(p[2:], ".") {
+			out = append(out, h[0]+"."+h[1], h[0]+"."+h[1]+".svc")
+			if h[1] == p[0] {
+				out = append(out, h[0])
+			}
+		}
+	}
+	if ms.addr != "" && ms.addr != "0.0.0.0" {
+		if strings.Contains(ms.addr, ":") {
+			out = append(out, "["+ms.addr+"]") // an IPv6 literal in a Host header is bracketed
+		} else {
+			out = append(out, ms.addr)
 		}
 	}
 	return out
@@ -340,42 +508,222 @@ func (s *state) vsApplies(vs *networking.VirtualService) bool {
 	return false
 }
 
-// meshSpec: what should happen to a request addressed to `authority` on this listener port.
 func (s *state) decideFor(ms meshSvc, q request) string {
-	if c := s.vsChoice(ms.host); c != nil {
-		saveVS, saveCfg := s.vs, s.cfg
-		s.vs, s.cfg = c.Spec.(*networking.VirtualService), *c
-		d, _ := s.vsSpec(q)
-		s.vs, s.cfg = saveVS, saveCfg
-		return d
+	hn := strings.ToLower(ms.host) // hostnames are case-insensitive
+	if c := s.vsChoice(hn); c != nil {
+		return s.vsDecision(c, q)
 	}
-	return showDist([]kvw{{"outbound|" + strconv.Itoa(s.port) + "||" + ms.host, 1}})
+	return showDist([]kvw{{"outbound|" + strconv.Itoa(s.port) + "||" + hn, 1}})
+}
+
+func (s *state) vsDecision(c *config.Config, q request) string {
+	saveVS, saveCfg := s.vs, s.cfg
+	s.vs, s.cfg = c.Spec.(*networking.VirtualService), *c
+	d, _ := s.vsSpec(q)
+	s.vs, s.cfg = saveVS, saveCfg
+	return d
+}
+
+func (s *state) policyDecision() string {
+	p := "allow"
+	if s.scoped() && s.mesh.policy != "" {
+		p = s.mesh.policy
+	}
+	switch {
+	case p == "registry":
+		return "dr:502!-"
+	case strings.HasPrefix(p, "egress="):
+		h, port, _ := strings.Cut(wire.Dec(p[7:]), "|")
+		return showDist([]kvw{{"outbound|" + port + "||" + h, 1}})
+	}
+	return showDist([]kvw{{"PassthroughCluster", 1}})
+}
+
+func (s *state) onPortVisible() []meshSvc {
+	var out []meshSvc
+	for _, ms := range s.mesh.svcs {
+		if hasPort(ms, s.port) && s.svcVisible(ms) {
+			out = append(out, ms)
+		}
+	}
+	return out
+}
+
+// indexedVS: the VirtualService the most-specific index names for a (lower-case) service hostname: exact
+// VirtualService host first, else the longest matching wildcard host, oldest VirtualService listing it.  Hostnames
+// compare case-insensitively.
+func (s *state) indexedVS(key string) *config.Config {
+	var vss []*config.Config
+	for i := range s.mesh.vss {
+		if s.vsVisible(&s.mesh.vss[i]) {
+			vss = append(vss, &s.mesh.vss[i])
+		}
+	}
+	for _, c := range vss {
+		for _, h := range c.Spec.(*networking.VirtualService).Hosts {
+			if !strings.HasPrefix(h, "*") && strings.ToLower(h) == key {
+				return c
+			}
+		}
+	}
+	best := ""
+	for _, c := range vss {
+		for _, h := range c.Spec.(*networking.VirtualService).Hosts {
+			if strings.HasPrefix(h, "*") && strings.HasSuffix(key, strings.ToLower(h[1:])) && len(h) > len(best) {
+				best = strings.ToLower(h)
+			}
+		}
+	}
+	if best == "" {
+		return nil
+	}
+	for _, c := range vss {
+		for _, h := range c.Spec.(*networking.VirtualService).Hosts {
+			if strings.ToLower(h) == best {
+				return c
+			}
+		}
+	}
+	return nil
+}
+
+type strayHost struct {
+	name string
+	c    *config.Config
+}
+
+// strayHosts: VirtualService hosts outside the registry of the port that are honoured.  CODE-DERIVED condition: the
+// VirtualService has a rule for this proxy, and the listener port is 80 or it also serves a service of this port.
+func (s *state) strayHosts() []strayHost {
+	on := s.onPortVisible()
+	isSvc := func(h string) bool {
+		for _, ms := range on {
+			if strings.ToLower(ms.host) == h {
+				return true
+			}
+		}
+		return false
+	}
+	var out []strayHost
+	for i := range s.mesh.vss {
+		c := &s.mesh.vss[i]
+		if !s.vsVisible(c) {
+			continue
+		}
+		vs := c.Spec.(*networking.VirtualService)
+		if !s.vsApplies(vs) {
+			continue
+		}
+		serves := false
+		var stray []string
+		for _, h := range vs.Hosts {
+			lh := strings.ToLower(h)
+			if !strings.HasPrefix(lh, "*") {
+				if isSvc(lh) {
+					serves = true
+				} else {
+					stray = append(stray, lh)
+				}
+				continue
+			}
+			matched := false
+			for _, ms := range on {
+				if strings.HasSuffix(strings.ToLower(ms.host), lh[1:]) {
+					matched = true
+					if x := s.indexedVS(strings.ToLower(ms.host)); x != nil && x.Name == c.Name && x.Namespace == c.Namespace {
+						serves = true
+					}
+				}
+			}
+			if !matched {
+				stray = append(stray, lh)
+			}
+		}
+		if s.port != 80 {
+			// only VirtualServices matching a service of the port are considered at all, and then need a service
+			considered := false
+			for _, h := range vs.Hosts {
+				lh := strings.ToLower(h)
+				for _, ms := range on {
+					mh := strings.ToLower(ms.host)
+					if lh == mh || (strings.HasPrefix(lh, "*") && strings.HasSuffix(mh, lh[1:])) {
+						considered = true
+					}
+				}
+			}
+			if !considered || !serves {
+				continue
+			}
+		}
+		for _, h := range stray {
+			out = append(out, strayHost{h, c})
+		}
+	}
+	return out
+}
+
+func (s *state) claimedAsAlias(h string) bool {
+	for _, ms := range s.onPortVisible() {
+		for _, a := range s.visibleAliases(ms) {
+			if a == h {
+				return true
+			}
+		}
+	}
+	return false
 }
 
 // meshSpec: what should happen to a request addressed to `authority` on this listener port; ok=false when the
-// spec is silent: the name is claimed by several services and is not the FQDN of one of them (CONTESTED).
+// spec is silent (CONTESTED name).  Resolution: the FQDN of a service; else the unique claimant among service names
+// and exact VirtualService hosts outside the registry; else the longest matching wildcard VirtualService host outside
+// the registry; else the outbound traffic policy.
 func (s *state) meshSpec(authority string, q request) (string, bool) {
 	a := asciiLower(stripPort(authority)) // the outbound listener already fixes the port
 	var claim []meshSvc
-	for _, ms := range s.mesh.svcs {
-		if !hasPort(ms, s.port) || !s.svcVisible(ms) {
-			continue
+	for _, ms := range s.onPortVisible() {
+		if ms.ext != "" && s.vsChoice(strings.ToLower(ms.host)) == nil {
+			continue // an Alias service has no virtual host of its own unless a VirtualService serves it
 		}
 		if asciiLower(ms.host) == a || asciiLower(ms.host)+"." == a {
+			if ms.ext != "" && s.claimedAsAlias(ms.host) {
+				return "", false // CONTESTED: an Alias service served by a VirtualService, and the service it stands for
+			}
 			return s.decideFor(ms, q), true // the FQDN of a service addresses that service
 		}
-		for _, n := range svcNames(ms, s.mesh.proxyDomain) {
+		lms := ms
+		lms.host = strings.ToLower(ms.host)
+		lms.aliases = s.visibleAliases(ms)
+		for _, n := range svcNames(lms, s.mesh.proxyDomain) {
 			if asciiLower(n) == a {
 				claim = append(claim, ms)
 				break
 			}
 		}
 	}
-	switch len(claim) {
-	case 0: // no service of that name on this port: the catch-all virtual host (outboundTrafficPolicy ALLOW_ANY)
-		return showDist([]kvw{{"PassthroughCluster", 1}}), true
-	case 1:
+	strays := s.strayHosts()
+	var exact []strayHost
+	for _, e := range strays {
+		if !strings.HasPrefix(e.name, "*") && e.name == a {
+			exact = append(exact, e)
+		}
+	}
+	switch {
+	case len(claim) == 0 && len(exact) == 0:
+		best := ""
+		var bc *config.Config
+		for _, e := range strays {
+			if len(e.name) > 1 && strings.HasPrefix(e.name, "*") && len(a) > len(e.name)-1 && strings.HasSuffix(a, e.name[1:]) && len(e.name) > len(best) {
+				best, bc = e.name, e.c
+			}
+		}
+		if bc != nil {
+			return s.vsDecision(bc, q), true
+		}
+		return s.policyDecision(), true
+	case len(claim) == 1 && len(exact) == 0:
 		return s.decideFor(claim[0], q), true
+	case len(claim) == 0:
+		return s.vsDecision(exact[0].c, q), true
 	}
 	return "", false
 }
@@ -406,6 +754,13 @@ func (s *state) classifyMesh(q request, want, got string) string {
 	s.services = full
 	if alt == got && alt != want {
 		return "destination-port-of-service-not-on-listener-port"
+	}
+	// F-C12-9: an alias is honoured by the entry that imports the concrete service, not by importing the alias service
+	s.aliasVariant = true
+	alt, _ = s.meshSpec(q.authority, q)
+	s.aliasVariant = false
+	if alt == got && alt != want {
+		return "alias-import-decided-by-concrete-service-entry"
 	}
 	// F-C12-6: wildcard host listed by several VirtualServices - only the oldest is ever considered
 	s.indexVariant = true
@@ -461,10 +816,15 @@ func genRds(seed uint64, n int, out string) {
 		r := root.Fork()
 		s := newState()
 		o.Line("case", strconv.Itoa(i), "rds")
-		// listener port 80 is left out: there (and only there) VirtualService hosts outside the registry get
-		// virtual hosts of their own ("gross HACK" in buildSidecarVirtualHostsForVirtualService), which the
-		// end-to-end spec does not describe
-		port := wire.Pick(r, []int{8080, 9080, 9080, 8000})
+		// listener port 80 included: there VirtualService hosts outside the registry get virtual hosts of their own even
+		// when the VirtualService serves no service of the port
+		port := wire.Pick(r, []int{8080, 9080, 80, 80, 8000})
+		// a third of the cases stay inside the hypotheses of sidecar_rds_correct (certVSHosts): listener port other than
+		// 80, lower-case names, VirtualService hosts that name or match a service of the listener port
+		plain := r.Chance(1, 3)
+		if plain && port == 80 {
+			port = 9080
+		}
 		nss := wire.Pick(r, nsUniverses)
 		pool := meshPool(nss)
 		meshVSHosts := meshVSHostPool(nss)
@@ -489,6 +849,25 @@ func genRds(seed uint64, n int, out string) {
 		if len(picked) > 7 {
 			picked = picked[:7]
 		}
+		// hostnames are case-insensitive: a ServiceEntry may spell its host with capitals
+		for k := range picked {
+			if !plain && !strings.HasSuffix(picked[k].host, ".svc.cluster.local") && r.Chance(1, 5) {
+				picked[k].host = flipCase(r, picked[k].host)
+			}
+		}
+		// the Kubernetes registry's picture of an ExternalName service pointing into the mesh: the alias service is
+		// Resolution: Alias with ExternalName = the concrete host, the concrete service lists it in Attributes.Aliases
+		for k := range picked {
+			if picked[k].ext != "" && r.Chance(1, 2) {
+				for j := range picked {
+					if j != k && strings.HasSuffix(picked[j].host, ".svc.cluster.local") && picked[j].ext == "" {
+						picked[k].ext = picked[j].host
+						picked[j].aliases = []string{picked[k].host}
+						break
+					}
+				}
+			}
+		}
 		onPort := map[string]bool{}
 		for k, ms := range picked {
 			switch r.Intn(6) {
@@ -508,11 +887,16 @@ func genRds(seed uint64, n int, out string) {
 				ms.addr = "10.0." + strconv.Itoa(k) + ".1"
 				if k > 0 && r.Chance(1, 8) {
 					ms.addr = "10.0.0.1" // a VIP shared with another service: first come first served
+				} else if r.Chance(1, 8) {
+					ms.addr = "2001:db8::" + strconv.Itoa(k+1)
 				}
 			}
 			onPort[ms.host] = hasPort(ms, port)
 			picked[k] = ms
 			f := []string{"msvc", wire.Enc(ms.host), wire.Enc(ms.ns), wire.EncList(intsToStrs(ms.ports)), wire.Enc(ms.addr), wire.Enc(ms.ext)}
+			if len(ms.aliases) > 0 {
+				f = append(f, wire.EncList(ms.aliases))
+			}
 			s.rdsStep(f)
 			o.Line(f...)
 		}
@@ -522,10 +906,36 @@ func genRds(seed uint64, n int, out string) {
 		var all []*networking.VirtualService
 		for k := 0; k < nvs; k++ {
 			var hosts []string
-			for tries := 0; tries < 4 && len(hosts) == 0; tries++ {
+			want := 1
+			if r.Chance(1, 3) {
+				want = 2 + r.Intn(2) // a VirtualService for several hosts
+			}
+			for tries := 0; tries < 6 && len(hosts) < want; tries++ {
 				h := wire.Pick(r, meshVSHosts)
-				if r.Chance(3, 5) {
+				switch x := r.Intn(10); {
+				case plain:
+					if x < 7 {
+						h = wire.Pick(r, picked).host
+						if !onPort[h] {
+							h = picked[0].host // always on the listener port
+						}
+					}
+				case x < 6:
 					h = wire.Pick(r, picked).host
+					if r.Chance(1, 6) {
+						h = flipCase(r, h) // VirtualService hosts are case-insensitive too
+					} else if r.Chance(1, 6) && strings.HasSuffix(h, ".svc.cluster.local") {
+						h = strings.Split(h, ".")[0] // a short name: relative to the VirtualService's namespace
+					}
+				case x < 8: // a host outside the registry
+					h = wire.Pick(r, []string{"external.example.org", "ext." + nss[0] + ".svc.cluster.local", "*.example.org", "other.example.com"})
+				}
+				dup := false
+				for _, x := range hosts {
+					dup = dup || strings.EqualFold(x, h)
+				}
+				if dup {
+					continue
 				}
 				// mostly distinct hosts, but two VirtualServices may list the same exact or wildcard host ("oldest wins")
 				if !usedHosts[h] || r.Chance(1, 2) {
@@ -536,7 +946,13 @@ func genRds(seed uint64, n int, out string) {
 			if len(hosts) == 0 {
 				continue
 			}
-			for {
+			for tries := 0; tries < 8; tries++ {
+				if tries == 2 || tries == 5 { // the host list itself may be what the validator rejects (hosts matching each other)
+					hosts = hosts[:1]
+					if tries == 5 {
+						hosts[0] = strings.ToLower(hosts[0])
+					}
+				}
 				vsf := []string{"vs", "mvs" + strconv.Itoa(k), wire.Pick(r, nss), "plain", wire.EncList(hosts)}
 				s.apply(vsf)
 				nr := 1 + r.Intn(3)
@@ -557,6 +973,9 @@ func genRds(seed uint64, n int, out string) {
 						}
 						if strings.HasPrefix(d.Destination.Host, "alias.") && !onPort[d.Destination.Host] {
 							d.Destination.Host = "unknown.example.org" // alias half of F-C12-4: own corpus file
+						}
+						if r.Chance(1, 8) && strings.HasSuffix(d.Destination.Host, "."+s.cfg.Namespace+".svc.cluster.local") {
+							d.Destination.Host = strings.Split(d.Destination.Host, ".")[0] // short name of a service of the rule's namespace
 						}
 					}
 					s.vs.Http = append(s.vs.Http, h)
@@ -599,7 +1018,33 @@ func genRds(seed uint64, n int, out string) {
 			if len(eh) == 0 {
 				eh = []string{"./*"}
 			}
+			if r.Chance(1, 4) { // an exclusion: ~namespace/dnsName
+				x := wire.Pick(r, picked)
+				eh = append(eh, "~"+wire.Pick(r, []string{x.ns, "*", "", "."})+"/"+wire.Pick(r, []string{x.host, x.host, "*.svc.cluster.local", "*.com"}))
+			}
 			f := []string{"sidecar", wire.Enc(scNs), wire.EncList(eh)}
+			pol := "allow"
+			switch r.Intn(5) {
+			case 0:
+				pol = "registry"
+			case 1:
+				pol = "egress=" + wire.Enc(wire.Pick(r, picked).host+"|"+wire.Pick(r, []string{"443", "15443"}))
+			}
+			withPort := r.Chance(1, 3)
+			if pol != "allow" || withPort {
+				f = append(f, pol)
+			}
+			if withPort {
+				// an egress listener for one port: proxies of the namespace see ITS hosts on that port
+				var ph []string
+				for _, ms := range wire.Subset(r, picked, 1, 3) {
+					ph = append(ph, wire.Pick(r, []string{ms.ns, "*", "."})+"/"+ms.host)
+				}
+				if r.Chance(1, 3) {
+					ph = append(ph, wire.Pick(r, append([]string{"*"}, nss...))+"/"+wire.Pick(r, append([]string{"*"}, meshVSHosts...)))
+				}
+				f = append(f, strconv.Itoa(wire.Pick(r, []int{port, port, 7070})), wire.EncList(ph))
+			}
 			s.rdsStep(f)
 			o.Line(f...)
 		}
@@ -632,6 +1077,22 @@ func genRds(seed uint64, n int, out string) {
 					a = oneOff(r, a)
 				case 4:
 					a = wire.Pick(r, []string{"unknown.example.org", "x.default.svc.cluster.local", "reviews." + p.ns + ".svc", "example.com", "reviews." + p.ns})
+				case 5, 6:
+					// a host some VirtualService lists (possibly outside the registry) or a name under a wildcard host
+					var vh []string
+					for _, v := range all {
+						vh = append(vh, v.Hosts...)
+					}
+					if len(vh) > 0 {
+						a = wire.Pick(r, vh)
+						if strings.HasPrefix(a, "*") {
+							a = wire.Pick(r, []string{"x", "a.b", "external"}) + a[1:]
+						}
+					}
+				case 7:
+					if len(ms.aliases) > 0 {
+						a = wire.Pick(r, svcNames(meshSvc{host: ms.aliases[0], ns: ms.ns}, pd))
+					}
 				}
 				// real clients send host:port on these listener ports; the port is not part of the virtual-host match
 				switch r.Intn(6) {
